@@ -6,6 +6,21 @@ STD_ASSUME_PURE = [
 ]
 
 PROPS = {
+    "C02": {
+        "lean_modules": ["RdestModel.Props.C02"],
+        "cases": {"quick": 14, "thorough": 700},
+        "rule": "every case is one end-to-end run of the real Session::run in a child process (scratch directory, loopback tracker, fixed port 6881 "
+                "behind a lock file): piece length in {5,16,100,16384,20000,40000}, 1..4 files with lengths in {0, pl, <pl, random} (total up to 12 "
+                "pieces), content a function of the seed; 1..3 honest peers among which every piece is spread (each piece at one random peer plus "
+                "1/3 chance at each other), 0..2 extra peers with random pieces that disconnect after 0..2 blocks or in the middle of a Piece message; "
+                "peers write with random segmentation (1 byte .. whole message) and unchoke after a random delay; in 2/3 of the runs one honest peer "
+                "leaves once all pieces are stored, in 1/3 everybody stays; observed: SHA-1 of every output file (compared with the model's "
+                "extractSpec of the content), panics of any task (panic hook), the session still running; distinct = distinct argument lines",
+        "assumptions": STD_ASSUME_PURE + ["liveness on the real runtime is observed, not proved: tokio scheduling, TCP, reqwest, timers and the OS are outside the model",
+                                           "SHA-1 collision freedom on the torrent's pieces is an explicit hypothesis of T1",
+                                           "peers that stay connected without serving what they were asked for are outside the property's hypothesis (honest or disconnecting)",
+                                           "port 6881 is free on the machine (runs are serialised by a lock file)"],
+    },
     "C03": {
         "lean_modules": ["RdestModel.Props.C03"],
         "cases": {"quick": 2000, "thorough": 100000},
